@@ -195,3 +195,81 @@ def make_call_summary(res, ctx_func: FuncInfo):
         return [a for p, a, _ in b.pairs if p.name in per_slot[slot[0]]]
 
     return summary
+
+
+def fusion_component_lineage(ctx, clause: str, class_names=("ShallowFusionLanguageModel", "ExtractableShallowFusionLanguageModel",
+                                                       "MixableShallowFusionLanguageModel")):
+    """Shallow fusion keeps one state dict per component: slot 0 / 1 of `split_dicts` and formal 0 / 1 of `merge_dicts`
+    belong to `self.first` / `self.second`. A state that reaches a method of one component, or the other component's
+    slot of `merge_dicts`, from the wrong lineage makes that component's state stop following the paths."""
+    import ast
+    from sa.astutil import u
+    from sa.defuse import ReachingDefs
+    from sa.model import own_calls
+    col, pkg = ctx.col, ctx.pkg
+    COMP = ("first", "second")
+    nsites = 0
+    for cn in class_names:
+        ci = pkg.cls(f"_lm::{cn}")
+        for fl in ci.methods.values():
+            for m in fl:
+                if m.is_overload:
+                    continue
+                rd = ReachingDefs(m.node)
+                rel = m.module.relname
+
+                def comp_of_call(c):
+                    f_ = c.func
+                    if isinstance(f_, ast.Attribute) and isinstance(f_.value, ast.Attribute) and u(f_.value.value) == "self" \
+                            and f_.value.attr in COMP:
+                        return f_.value.attr
+                    return None
+
+                def lineage(e, depth=0, seen=None):
+                    seen = seen if seen is not None else set()
+                    out = set()
+                    if depth > 10:
+                        return out
+                    if isinstance(e, ast.Call):
+                        c = comp_of_call(e)
+                        if c:
+                            return {c}
+                    if isinstance(e, ast.Name):
+                        for d in rd.defs_of(e):
+                            if id(d) in seen:
+                                continue
+                            seen.add(id(d))
+                            v = d.value
+                            if v is None:
+                                continue
+                            if isinstance(v, ast.Call) and u(v.func) == "self.split_dicts" and d.kind == "unpack" and d.slot:
+                                out.add(COMP[d.slot[0]] if d.slot[0] < 2 else "?")
+                            elif isinstance(v, ast.Call) and comp_of_call(v):
+                                out.add(comp_of_call(v))
+                            elif d.kind in ("assign", "unpack"):
+                                out |= lineage(v, depth + 1, seen)
+                        return out
+                    for ch in ast.iter_child_nodes(e):
+                        out |= lineage(ch, depth + 1, seen)
+                    return out
+                for c in own_calls(m.node):
+                    comp = comp_of_call(c)
+                    if comp:
+                        for a in list(c.args) + [k.value for k in c.keywords]:
+                            ln = lineage(a)
+                            if not ln:
+                                continue
+                            nsites += 1
+                            col.ob("G2", clause, f"{rel}::{m.qualname}::self.{comp}.{c.func.attr}({u(a)})-own-state", ln == {comp},
+                                   f"`{u(c)[:80]}` hands `self.{comp}` a state of lineage {sorted(ln)} (slot of split_dicts / "
+                                   f"result of the other component): the {comp} component's state no longer follows its own "
+                                   f"history", rel, c.lineno, nontrivial=False)
+                    elif u(c.func) == "self.merge_dicts" and len(c.args) == 2:
+                        for i, a in enumerate(c.args):
+                            ln = lineage(a)
+                            nsites += 1
+                            col.ob("G2", clause, f"{rel}::{m.qualname}::merge_dicts[{COMP[i]}]<-{u(a)}", ln == {COMP[i]},
+                                   f"`{u(c)}` stores a state of lineage {sorted(ln)} under the {COMP[i]} component's prefix",
+                                   rel, c.lineno, nontrivial=False)
+    col.count("fusion_state_sites", nsites)
+    col.floor("fusion_state_sites", nsites, 16)
